@@ -11,6 +11,7 @@ Depth(x) == IF x.items = <<>> THEN 0
                          \A i \in 1..Len(x.items) : Depth(x.items[i]) <= m)
 Scalars == {VStr(<<>>), VInt(0), VInt(1), VInt(5), VInt(-7), VFloat("1.0"), VFloat("0.0"), VFloat("-0.0"), VBig("9223372036854775808123"), VBig("-170141183460469231731687303715884105728"),
             VFloat("1.5"), VFloat("-2.25"), VFloat("1e+30"), VFloat("0.1"), VBool(TRUE), VBool(FALSE), VNone,
+            VFloat("inf"), VFloat("-inf"), VFloat("nan"),       \* the non-finite floats (their text is not a literal)
             VBytes(<<>>), VBytes(<<"97", "39", "92", "10", "200">>)}
 Init == v \in Scalars
 Grow == /\ v.vt = "str" /\ Len(v.cs) < MaxLen
